@@ -16,6 +16,8 @@ not allow the step in its state (the harness only emits steps it saw the real co
   kill <n> | restart <n> | lead <l>
   restartlate <n> | replaylate <n>           restart with the replayed entries applied later
   metadown <n> | metaup <n> | elect | setmaster <m>
+  coordwrite <k> <v> <sh> <size>             the coordinator routes one request and proposes it at the target store
+  route                                      the partition requests are mapped to
   flushprobe                                 where the flush gives the raft snapshot signal (regenerated fact)
   digest                                     the whole state, canonical (files / flushing table / memtable apart)
   digestm                                    the same with only the merged view of each node's rows (real shards)
@@ -75,7 +77,7 @@ def nodeText (merged : Bool) (clog : List Ent) (bounds : List Nat) (i : Nat) (x 
 
 def digest (merged : Bool) (s : State) : String :=
   let acked := (s.acked.mergeSort (fun a b => a.1 ≤ b.1)).map (fun a => s!"{a.1}:{if a.2 then "ok" else "err"}")
-  let hdr := s!"D clog={s.clog.length} infl={s.inflight.length} lead={match s.leader with | some l => toString l | none => "-"} master={s.master} peers={natList s.peers} alive={natList (s.alive.map (fun b => if b then 1 else 0))} acked={if acked.isEmpty then "-" else ",".intercalate acked}"
+  let hdr := s!"D clog={s.clog.length} infl={s.inflight.length} lead={match s.leader with | some l => toString l | none => "-"} master={s.master} peers={natList s.peers} alive={natList (s.alive.map (fun b => if b then 1 else 0))} health={if s.health then 1 else 0} acked={if acked.isEmpty then "-" else ",".intercalate acked}"
   " | ".intercalate (hdr :: (s.nodes.mapIdx (fun i x => nodeText merged s.clog s.bounds i x)))
 
 def optText : Option Nat → String
@@ -138,6 +140,11 @@ def stepLine (s : Option State) (line : String) : Option State × String :=
   | ["elect"] => act s .elect
   | ["setmaster", m] => match m.toNat? with | some m => act s (.setMaster m) | none => bad
   | ["flushprobe"] => (s, s!"signal-after-commit={if OG.Gen.C05.snapSignalAfterCommit then 1 else 0}")
+  | ["coordwrite", k, v, sh, size] =>
+    match k.toNat?, v.toNat?, sh.toNat?, size.toNat? with
+    | some k, some v, some sh, some size => act s (.coordWrite (.write k v sh) size)
+    | _, _, _, _ => bad
+  | ["route"] => match s with | some st => (s, match route st with | some p => s!"pt={p}" | none => "none") | none => bad
   | ["digest"] => match s with | some st => (s, digest false st) | none => bad
   | ["digestm"] => match s with | some st => (s, digest true st) | none => bad
   | ["read", n, k] =>
